@@ -92,7 +92,7 @@ theorem inv_step {s : Srv} (hI : Inv s) (i : In) : Inv (step s i).1 := by
         exact ⟨hok.1, by simp, hok.2.2⟩
       | cnak => exact hI
       | echo => exact hI
-      | term => exact inv_erase hI sid rfl
+      | term => exact inv_erase (inv_of_sessions_eq hI (poolRelease_sessions s _)) sid rfl
   | pap m sid g r =>
     simp only [step]
     split
@@ -285,7 +285,7 @@ theorem ghost_set_only_by_accepted_pap (s : Srv) (i : In) (sid : Nat) (x' : Sess
       · exact Or.inl ⟨x', h, ha⟩
       · (simp only [setSess] at h; exact Or.inl (keep sid' x _ hx h rfl))
       · exact Or.inl ⟨x', h, ha⟩
-      · simp only [lookup_erase] at h
+      · simp only [lookup_erase, poolRelease_sessions] at h
         split at h
         · simp at h
         · exact Or.inl ⟨x', h, ha⟩
